@@ -324,8 +324,11 @@ func rootsFor(prop, tier string) []Root {
 		for lg := 0; lg < 2; lg++ {
 			rs = append(rs, Root{Prop: prop, Harness: "VH_C14_Struct", Params: []int{1, lg}, MaxDecs: 3000})
 			rs = append(rs, Root{Prop: prop, Harness: "VH_C14_Struct", Params: []int{2, lg}, MaxDecs: 3000})
+			// depth 3 (and 4, 5): fan-out <= 2 at the top level, <= 1 below
+			rs = append(rs, Root{Prop: prop, Harness: "VH_C14_Struct", Params: []int{3, lg}, MaxDecs: 6000})
 			if thorough {
-				rs = append(rs, Root{Prop: prop, Harness: "VH_C14_Struct", Params: []int{3, lg}, MaxDecs: 6000})
+				rs = append(rs, Root{Prop: prop, Harness: "VH_C14_Struct", Params: []int{4, lg}, MaxDecs: 8000})
+				rs = append(rs, Root{Prop: prop, Harness: "VH_C14_Struct", Params: []int{5, lg}, MaxDecs: 12000})
 			}
 		}
 	case "C15":
